@@ -161,6 +161,24 @@ Theorem c15_no_block : forall m0 n acts s,
 Proof. exact no_block. Qed.
 Print Assumptions c15_no_block.
 
+(* the write loop, whichever way it leaves (also "the service ended the stream"),
+   closes [done]; a reader parked with a follow-up in its hand because nobody takes
+   from the full clientInputs any more then leaves and closes clientInputs *)
+Theorem c15_writer_gone_releases_reader : forall m0 n acts s,
+  run fixed (init m0 n) acts = Some s -> wr (wk s) <> WLoop ->
+  done (wk s) = true /\
+  (forall m, rd (wk s) = RHave m ->
+     exists s1 s2, step fixed s RdDone = Some s1 /\ step fixed s1 RdFinish = Some s2 /\
+                   rd (wk s2) = RExit /\ cin_closed (wk s2) = true).
+Proof. exact writer_gone_releases_reader. Qed.
+Print Assumptions c15_writer_gone_releases_reader.
+
+Example c15_writer_gone_releases_reader_example :
+  exists acts s m, run fixed (init (MReq 0) 1) acts = Some s /\ wr (wk s) <> WLoop /\
+    rd (wk s) = RHave m /\ length (cin (wk s)) = cin_cap /\ ad (pc s) = AExit.
+Proof. exact writer_gone_releases_reader_example. Qed.
+Print Assumptions c15_writer_gone_releases_reader_example.
+
 (* ---- other clients are unaffected ------------------------------------------- *)
 
 Theorem c15_sys_no_crash : forall l acts s,
